@@ -468,8 +468,8 @@ def degraded_campaign(ctx, camp):
     for name, nodes, edges in shapes:
         for workers in (2, 3, 1):
             for exc_kind, failing, max_errors in (("Exception", [], 0), ("Exception", [nodes[0]], 0), ("Exception", [nodes[1]], 1), ("BaseException", [nodes[0]], None),
-                                                  ("SystemExit", [nodes[1]], 0)):
-                for si in range(ctx.n(4, 12)):
+                                                  ("SystemExit", [nodes[1]], 0), ("Exception", [nodes[0]], 2), ("Exception", [nodes[1]], None)):
+                for si in range(ctx.n(14, 40) if failing and workers > 1 else ctx.n(4, 12)):
                     jobs.append((name, nodes, edges, workers, max_errors, failing, exc_kind, si))
     for gi in range(ctx.n(20, 150)):
         fam, nodes, edges = gen_graph(rng, maxn=7)
